@@ -44,13 +44,13 @@ UserDictOk ==
       acc == Accept(R.uattrs, R.uchords, bn)
   IN /\ (acc => /\ R.seqOk /\ Len(R.seqOns) = Len(R.seqKeys)      \* several chords in one run: each as if alone
                  /\ \A q \in 1..Len(R.seqKeys) :
-                       BagOfSeqD(R.seqOns[q]) = ExpectedOns(Resolve(R.uattrs, R.uchords, bn, R.seqKeys[q], Len(R.uchords) + 1).bag))
+                       BagOfSeqD(R.seqOns[q]) = ExpectedOns(ResolveTop(R.uattrs, R.uchords, bn, R.seqKeys[q], Len(R.uchords) + 1).bag))
      /\ (~acc => ~R.seqOk)
      /\ \A u \in 1..Len(R.uses) : LET x == R.uses[u] IN
        /\ x.terminated
        /\ IF acc
           THEN /\ x.ok                                             \* usable like a built-in
-               /\ BagOfSeqD(x.ons) = ExpectedOns(Resolve(R.uattrs, R.uchords, bn, x.key, Len(R.uchords) + 1).bag)
+               /\ BagOfSeqD(x.ons) = ExpectedOns(ResolveTop(R.uattrs, R.uchords, bn, x.key, Len(R.uchords) + 1).bag)
           ELSE /\ ~x.ok /\ x.stdoutLen = 0 /\ x.stderrLen > 0      \* rejected
                /\ ~x.panic /\ x.exit > 0                           \* ... with an error, not a crash
 
